@@ -129,6 +129,11 @@ impl Prop for C35 {
                             }
                             let kind = if i == total - 1 { "F" } else { "C" };
                             let kind = if rng.chance(1, 40) { *rng.pick(&["F", "C"]) } else { kind };
+                            // the same sequence number twice with different final flags: the stable sort keeps the
+                            // arrival order and the first one wins
+                            if rng.chance(1, 25) {
+                                out.push(format!("chunk {} {} {} {} {} {}", rid, base + i, if kind == "F" { "C" } else { "F" }, msg, i, total));
+                            }
                             // the chunk's message type does not matter to the client transport
                             let mt = match rng.weighted(&[10, 1, 1]) {
                                 0 => "",
